@@ -29,6 +29,7 @@ EXPLANATION = (
     "create_regions partitions the areas of a section by class exhaustively and creates one region per section; "
     "(R06.5) the test that starts a new section of the sweep is the negated overlap predicate (or a comparison "
     "equivalent to it for sorted half-open intervals, decided over all orderings)."
+    ' R06.5 also: the sweep connects sections with the record length as wrap point exactly when the record is circular.'
 )
 UNDECIDED = [
     "that the single sweep plus first/last merge yields exactly the connected components for every layout "
